@@ -32,22 +32,14 @@ inductive Scope where
   | frag (n : Name)
   deriving DecidableEq, Repr, Inhabited
 
-structure Reach where
-  visited : List Scope := []      -- in visiting (pre-)order
-  stuck : Bool := false
+/-- successors of a scope: the fragments spread directly within it -/
+def scopeSucc (spreads : List (Scope × List Name)) (sc : Scope) : List Scope :=
+  ((alGet spreads sc).getD []).map .frag
 
 /-- the DFS shared by `find_used_vars`, `find_undefined_vars`, `collect_incorrect_usages`:
-    visit `from` unless already visited, then every `Fragment(spread)` recorded for it.
-    Fuel bounds the depth. -/
-def reachScopes (spreads : List (Scope × List Name)) : Nat → Scope → Reach → Reach
-  | 0, _, r => { r with stuck := true }
-  | n + 1, sc, r =>
-    if r.visited.contains sc then r
-    else
-      let r := { r with visited := r.visited ++ [sc] }
-      match alGet spreads sc with
-      | some names => names.foldl (fun r nm => reachScopes spreads n (.frag nm) r) r
-      | none => r
+    visit `from` unless already visited, then every `Fragment(spread)` recorded for it. -/
+def reachScopes (spreads : List (Scope × List Name)) (fuel : Nat) (sc : Scope) (r : Reach Scope) : Reach Scope :=
+  dfs (scopeSucc spreads) fuel sc r
 
 def spreadFuel (spreads : List (Scope × List Name)) : Nat :=
   (spreads.map fun p => p.2.length).sum + 2
